@@ -32,6 +32,7 @@
 #include <fcntl.h>
 
 #include <climits>
+#include <dirent.h>
 
 #include "common/circuit.hpp"
 #include "place_detailed/abacus_legalizer.hpp"
@@ -202,6 +203,10 @@ static bool parseParams(const std::string &line, ColoquinteParameters &p) {
     std::string k = tok.substr(0, eq);
     double v = strtod(tok.c_str() + eq + 1, nullptr);
     bool done = false;
+    if (k == "effort") {  // hand-written corpus cases: start from the defaults of an effort
+      p = ColoquinteParameters((int)v);
+      done = true;
+    }
 #define F(f) if (!done && k == #f) { p.f = (decltype(p.f))v; done = true; }
     C07_PARAM_FIELDS(F)
 #undef F
@@ -743,12 +748,35 @@ struct Plan { long long nFlow, nM, nX, nS, nA; int timeout; };
 static Plan planFor(const vh::Args &a) {
   if (a.thorough()) return {12000, 60000, 3000, 3000, 20000, 300};
   if (a.search()) return {2500, 20000, 600, 1500, 20000, 120};
-  return {700, 12000, 300, 400, 4000, 120};
+  return {1500, 20000, 400, 400, 6000, 120};
 }
 static const int MBATCH = 500;
 
+static bool parseFlowCase(const std::string &in, Case &cs);
+static std::vector<std::string> corpusFiles(const std::string &dir);
+
 static void worker(const vh::Args &a, int w, int J, const Plan &pl, const std::string &path) {
   std::ofstream f(path, std::ios::binary);
+  // stage C: hand-written / recorded witnesses in the corpus directory
+  if (a.only < 0) {
+    std::vector<std::string> files = corpusFiles(a.corpus);
+    for (size_t i = w; i < files.size(); i += J) {
+      std::ifstream cf(a.corpus + "/" + files[i]);
+      std::stringstream ss;
+      ss << cf.rdbuf();
+      Case cs;
+      Rec r;
+      if (!parseFlowCase(ss.str(), cs)) {
+        r.k = i; r.stage = "C"; r.id = "c:" + files[i]; r.fate = "unparsable"; r.what = "[corpus] cannot parse " + files[i];
+        r.counts = "corpus_unparsable";
+      } else {
+        r = flowRecord("c:" + files[i], i, cs, pl.timeout);
+        r.stage = "C";
+        r.counts += ",corpus_cases";
+      }
+      writeRec(f, r);
+    }
+  }
   // stage F
   for (long long k = w; k < pl.nFlow; k += J) {
     if (a.only >= 0 && k != a.only) continue;
@@ -784,7 +812,7 @@ static void worker(const vh::Args &a, int w, int J, const Plan &pl, const std::s
     r.fate = fate; r.ops = ops.str(); r.impl = output;
     r.counts = "rowleg_domain_instances=" + std::to_string(insts.size());
     if (fate != "ok") {
-      r.what = "RowLegalizer faulted (" + fate + ") on an in-domain 2^22 op stream: " + summarize(diag);
+      r.what = "[rowleg_unit] RowLegalizer faulted (" + fate + ") on an in-domain 2^22 op stream: " + summarize(diag);
       r.input = r.ops;
       r.impl = "";
     }
@@ -820,7 +848,7 @@ static void worker(const vh::Args &a, int w, int J, const Plan &pl, const std::s
     bool big = s.number * (s.mx - s.mn) > INT_MAX;
     r.counts = std::string("subdiv_") + (big ? "product_above_int_max" : "product_fits_int") + ",subdiv_fate_" + fate;
     if (fate != "ok") {
-      r.what = "computeSubdivisions(" + std::to_string(s.mn) + ", " + std::to_string(s.mx) + ", " + std::to_string(s.number) +
+      r.what = "[computeSubdivisions_unit] computeSubdivisions(" + std::to_string(s.mn) + ", " + std::to_string(s.mx) + ", " + std::to_string(s.number) +
                ") (the call DensityGrid::updateBinsToSize makes for a placement area of this extent) ended with " + fate + ": " +
                summarize(diag);
       r.input = "subdiv " + std::to_string(s.mn) + " " + std::to_string(s.mx) + " " + std::to_string(s.number);
@@ -863,7 +891,7 @@ static void worker(const vh::Args &a, int w, int J, const Plan &pl, const std::s
     }
     r.impl = impl;
     r.counts = "abacus_eval_instances=" + std::to_string(v.size()) + ",abacus_eval_narrowed=" + std::to_string(nFail);
-    if (fate != "ok") { r.what = "AbacusLegalizer cost evaluation faulted (" + fate + "): " + summarize(diag); r.input = r.ops; r.impl = ""; }
+    if (fate != "ok") { r.what = "[abacus_unit] AbacusLegalizer cost evaluation faulted (" + fate + "): " + summarize(diag); r.input = r.ops; r.impl = ""; }
     else if (nFail) {
       std::istringstream is(firstFail);
       std::string tag, idx, msg;
@@ -872,7 +900,7 @@ static void worker(const vh::Args &a, int w, int J, const Plan &pl, const std::s
       std::ostringstream in;
       abaOps(v[i - bt * MBATCH], in);
       r.fate = "wrong-value";
-      r.what = msg + " (" + std::to_string(nFail) + " of " + std::to_string(v.size()) + " instances in this batch)";
+      r.what = "[abacus_cost_narrowing] " + msg + " (" + std::to_string(nFail) + " of " + std::to_string(v.size()) + " instances in this batch)";
       r.input = "abacus\n" + in.str();
     }
     writeRec(f, r);
@@ -909,6 +937,32 @@ static std::string replayInput(const std::string &path) {
     return jsonUnescape(all.substr(q + 1, e - q - 1));
   }
   return all;
+}
+
+static bool parseFlowCase(const std::string &in, Case &cs) {
+  std::istringstream is(in);
+  std::string first, tok, pline;
+  int cb = 0;
+  if (!(is >> first >> cs.seq >> tok >> cb) || first != "seq") return false;
+  cs.cb = cb != 0;
+  std::getline(is, pline);
+  std::getline(is, pline);
+  cs.kind = "corpus";
+  return parseParams(pline, cs.params) && parseSpec(is, cs.spec);
+}
+
+static std::vector<std::string> corpusFiles(const std::string &dir) {
+  std::vector<std::string> r;
+  if (dir.empty()) return r;
+  if (DIR *d = opendir(dir.c_str())) {
+    while (dirent *e = readdir(d)) {
+      std::string n = e->d_name;
+      if (n.size() > 5 && n.substr(n.size() - 5) == ".case") r.push_back(n);
+    }
+    closedir(d);
+  }
+  std::sort(r.begin(), r.end());
+  return r;
 }
 
 static int replay(const vh::Args &a, vh::Out &out) {
@@ -987,7 +1041,7 @@ int main(int argc, char **argv) {
     for (auto &r : readRecs(p)) recs.push_back(r);
     unlink(p.c_str());
   }
-  static const std::string order = "FMXSA";
+  static const std::string order = "CFMXSA";
   std::stable_sort(recs.begin(), recs.end(), [](const Rec &x, const Rec &y) {
     size_t sx = order.find(x.stage), sy = order.find(y.stage);
     return sx != sy ? sx < sy : x.k < y.k;
@@ -1004,6 +1058,7 @@ int main(int argc, char **argv) {
       "through the algorithms rather than being rejected up front), distinct by canonical text of the case; "
       "unit cases (row legalizer streams, computeSubdivisions, Abacus cost evaluation) at 2^22 magnitude are counted in "
       "the distribution";
+  std::map<std::string, int> perTag;
   for (auto &r : recs) {
     // counts: "a,b=3,c"
     std::istringstream cs(r.counts);
@@ -1014,7 +1069,7 @@ int main(int argc, char **argv) {
       if (eq == std::string::npos) out.count(c); else out.count(c.substr(0, eq), atoll(c.c_str() + eq + 1));
     }
     if (r.fate == "skipped") continue;
-    if (r.stage == "F") out.evaluations++;
+    if (r.stage == "F" || r.stage == "C") out.evaluations++;
     else if (r.stage == "M" || r.stage == "A") { /* counted through the distribution */ }
     else out.evaluations++;
     if (r.nontrivialHash) out.nontrivial(r.nontrivialHash);
@@ -1022,7 +1077,13 @@ int main(int argc, char **argv) {
     out.ops << r.ops;
     out.impl << r.impl;
     // a fault of stage X (beyond the domain) is not a property failure; it is compared with the model's prediction
-    if (r.stage != "X" && r.fate != "ok") out.fail(r.id, r.what, r.input);
+    if (r.stage != "X" && r.fate != "ok") {
+      // keep every kind of failure visible below the 200-line cap of oracle.txt
+      size_t a = r.what.find('['), b = r.what.find(']');
+      std::string tag = (a != std::string::npos && b != std::string::npos && b > a) ? r.what.substr(a, b - a + 1) : "[untagged]";
+      out.count("oracle_fail_" + tag);
+      if (++perTag[tag] <= 25) out.fail(r.id, r.what, r.input);
+    }
   }
   out.evaluations += out.dist["rowleg_domain_instances"] + out.dist["abacus_eval_instances"];
   if (workerDied) out.notes.push_back("a worker process died: results are incomplete");
